@@ -318,7 +318,7 @@ func cmdVariant(args []string) int {
 		out.Infra = err.Error()
 		return 2
 	}
-	r := runProperty(p, spec, nil)
+	r := runProperty(p, spec, loadFindings(filepath.Join(cf.verif, "known_findings.jsonl")))
 	if r.InfraErr != "" {
 		out.Infra = r.InfraErr
 	}
